@@ -885,13 +885,9 @@ class Interp:
     def find_method_value(self, obj, name):
         """Bound method `obj.name` or None."""
         if isinstance(obj, LClass):
-            c = obj
-            while c is not None:
-                if name in c.statics:
-                    if c is not obj:
-                        raise Unsupported("inherited static method")
-                    return LBound(obj, c.statics[name])
-                c = c.parent
+            # static methods live in the class's own meta class and are not inherited by subclasses
+            if name in obj.statics:
+                return LBound(obj, obj.statics[name])
             m = self.classes["Class"].find_method(name)
             if m is not None:
                 return LBound(obj, m)
